@@ -78,8 +78,11 @@ class _Runner(_Processor):
             {self.cancel_event_task, process_task},
             return_when=asyncio.FIRST_COMPLETED,
         )
-        if self.cancel_event.is_set():
+        if self.cancel_event.is_set() and not process_task.done():
             process_task.cancel()
+            # reject only after the processing has really stopped: otherwise the reject
+            # could overlap with (or follow) the disposition which the processing has made
+            await asyncio.wait({process_task})
             await self._conn.message_broker.reject(key)
             return
         await process_task
